@@ -247,6 +247,9 @@ def odefun(ctx, F, x0, y0, tol=None, degree=None, method='taylor', verbose=False
         F = lambda x, y: [F_(x, y[0])]
         y0 = [y0]
         return_vector = False
+    # own copies of the initial data, as numbers of this context
+    x0 = ctx.convert(x0)
+    y0 = [ctx.convert(yk) for yk in y0]
     # compute the first segment at the same working precision as all
     # later ones (at the caller's precision the high-order differences
     # cancel catastrophically for some precisions, e.g. prec = 32, 34, 59)
